@@ -92,3 +92,38 @@ def run_scenarios(exe, scenarios, tag, workers=8, timeout=40, env=None):
             out.append(res)
     shutil.rmtree(d, ignore_errors=True)
     return out
+
+
+def tsan_pass(scenarios, tag, workers=6):
+    """Second oracle on the same kind of workload: the tree and harness compiled with -fsanitize=thread. Timing is distorted
+    under the sanitizer, so the functional verdicts of these runs are ignored; only ThreadSanitizer reports that involve a
+    frame of the code base count. Returns (runs, reports[{'kind','frames','text'}], lock_order_reports)."""
+    import glob, re
+    from .runner import ensure_build
+    exe = ensure_build("hgrt", "tsan")
+    d = os.path.join(SCRATCH, tag + ".tsanlog")
+    shutil.rmtree(d, ignore_errors=True)
+    os.makedirs(d, exist_ok=True)
+    res = run_scenarios(exe, scenarios, tag + ".tsan", workers=workers, timeout=240,
+                        env={"TSAN_OPTIONS": f"halt_on_error=0 report_signal_unsafe=0 log_path={d}/t"})
+    seen, reports, lock_order = set(), [], 0
+    for fn in glob.glob(os.path.join(d, "t.*")):
+        for b in open(fn, errors="replace").read().split("=================="):
+            if "WARNING: ThreadSanitizer" not in b:
+                continue
+            head = b.strip().splitlines()[0]
+            frames = [re.sub(r"\(hgrt\+0x[0-9a-f]+\)", "", l.strip()) for l in b.splitlines()
+                      if re.match(r"\s+#\d+ ", l) and ("/repo/" in l or "hgraph::" in l)]
+            if not frames:
+                continue
+            if "lock-order-inversion" in head:
+                lock_order += 1
+                continue
+            key = (head.split("(pid")[0], tuple(f.split(" ", 1)[-1][:120] for f in frames[:2]))
+            if key in seen:
+                continue
+            seen.add(key)
+            reports.append({"kind": head.split("(pid")[0].strip(), "frames": frames[:8], "text": b.strip()[:1500]})
+    shutil.rmtree(d, ignore_errors=True)
+    completed = sum(1 for r in res if r[1] is not None and r[1].complete)
+    return completed, reports, lock_order
